@@ -79,7 +79,8 @@ static void client_check_frame(int s, const struct VideoFrame* f, const char* pr
         }
     }
     struct mon_state* m = &MON[s];
-    if (m->have_last && f->frame_id != m->last_id + 1) {
+    const uint64_t step = P_AVG > 1 ? (uint64_t)P_AVG : 1; // averaged frames carry the id of their window's first input
+    if (m->have_last && f->frame_id != m->last_id + step) {
         char cl[64];
         snprintf(cl, sizeof cl, "%s:monitor-gap-or-repeat", prop);
         vs_fail(cl, "stream %d: monitor saw frame id %llu after %llu", s, (unsigned long long)f->frame_id, (unsigned long long)m->last_id);
@@ -318,6 +319,14 @@ static void c06_run(void)
         if (a >= from) client_ops(prog, "C06", &held);
         else vs_sleep_ms(15);
         g_end_abort[a] = ends[a] == 'a';
+        if (ends[a] == 's' && a >= from && !vs_param("undrained_stop", 0)) {
+            // a reader that has joined exerts back-pressure: a disciplined client keeps draining until the
+            // acquisition has finished before it waits in stop (DESIGN: known finding C06 undrained stop otherwise)
+            for (int k = 0; k < 64 && acquire_get_state(RT) == DeviceState_Running; ++k) {
+                for (int s = 0; s < P_STREAMS; ++s) client_poll(s, 0, 0, "C06");
+                vs_sleep_ms(7);
+            }
+        }
         if (ends[a] == 'a') OKQ(acquire_abort(RT)); else OKQ(acquire_stop(RT));
         release_held(held, "C06");
         check_quiescent("C06", ends[a] == 'a' ? "abort" : "stop");
@@ -372,7 +381,8 @@ static void c07_run(void)
     check_quiescent("C07", vs_param("ctl_stop", 0) ? "stop" : "abort");
     for (int s = 0; s < P_STREAMS; ++s) check_storage_complete(s, 1, -1, "C07", 1);
     // follow-up acquisition: configure; start; stop -> complete and correct, nothing left over
-    for (int s = 0; s < P_STREAMS; ++s) { PROPS.video[s].max_frame_count = 2; VM.cam[s].trigger = 0; PROPS.video[s].camera.settings.input_triggers.frame_start.enable = 0; VM.store[s].append_ms = 0; }
+    P_AVG = 0;
+    for (int s = 0; s < P_STREAMS; ++s) { PROPS.video[s].max_frame_count = 2; PROPS.video[s].frame_average_count = 0; VM.cam[s].trigger = 0; PROPS.video[s].camera.settings.input_triggers.frame_start.enable = 0; VM.store[s].append_ms = 0; }
     OKQ(acquire_configure(RT, &PROPS));
     begin_acquisition(reg);
     for (int s = 0; s < P_STREAMS; ++s) g_expect_first0[s] = reg[s];
@@ -409,7 +419,8 @@ static void c09_run(void)
     // camera fault at call k: storage holds a prefix of the k frames delivered before it
     for (int s = 0; s < P_STREAMS; ++s) check_storage_complete(s, 1, -1, "C09", 1);
     // fault-free follow-up
-    for (int s = 0; s < P_STREAMS; ++s) { VM.cam[s].fail_get_frame_at = -1; VM.store[s].fail_append_at = -1; PROPS.video[s].max_frame_count = 2; VM.store[s].append_ms = 0; }
+    P_AVG = 0;
+    for (int s = 0; s < P_STREAMS; ++s) { VM.cam[s].fail_get_frame_at = -1; VM.store[s].fail_append_at = -1; PROPS.video[s].max_frame_count = 2; PROPS.video[s].frame_average_count = 0; VM.store[s].append_ms = 0; }
     OKQ(acquire_configure(RT, &PROPS));
     begin_acquisition(reg);
     OKQ(acquire_start(RT));
@@ -584,6 +595,7 @@ static void c08_check(void)
 struct vs_scenario vs_scenarios[] = {
     { "c04", "finite acquisition start..stop; params n ringf ringx w h type exposure append_ms write_delay client streams", c04_setup, c04_run, c04_check },
     { "c06", "acquisitions ended by ends=[sa]+ with client program prog=[mpzhwH]*, monitoring from acquisition `from`", c06_setup, c06_run, c06_check },
+    { "c06u", "like c06 with undrained_stop=1: the client stops polling and calls stop (known finding)", c06_setup, c06_run, c06_check },
     { "c07", "abort/stop from a controller thread (variant 0), the client (1) or both (2), then a follow-up acquisition", c07_setup, c07_run, c07_check },
     { "c09", "camfail=k / storefail=k fault, end by stop or abort (end_abort), then a fault-free acquisition", c09_setup, c09_run, c09_check },
     { "c08", "client program prog over {A,B,2,0,s,t,m,u,S,a,g,w,X}; device life-cycle monitor", c08_setup, c08_run, c08_check },
